@@ -9,8 +9,9 @@ R1Body == Seq2(Str(<<a>>), Str(<<b>>))           \* can fail after consuming
 R2Body == Star(Str(<<a>>))                       \* always succeeds
 
 \* ("a."i: a case-insensitive literal is still a literal - its characters are not a regular expression)
+NotA == Rgx(<<"cat", << <<"la", Cls(<<a>>), FALSE>>, RxStarG(Cls(<<a, b>>)) >>>>)   \* /(?!a)[ab]*/ : nullable by itself, yet it can fail
 Leaves == { Str(<<a>>), Str(<<b>>), Str(<<a, b>>), Str(<<>>), StrI(<<a>>), StrI(<<a, 46>>),
-            APlus, AStar, BorAB, FailE, Back(1), PyInt(7), Ref("R1"), Ref("R2") }
+            APlus, AStar, BorAB, NotA, FailE, Back(1), PyInt(7), Ref("R1"), Ref("R2") }
 
 (* bytes mode: byte literals, byte strings, byte regexes (the same abstract syntax; the text is a bytes object) *)
 \* (0x00: the byte whose value is falsy in Python - never present in these texts, so it never matches)
